@@ -145,7 +145,8 @@ pub fn drive(args: &HashMap<String, String>) {
         }
         writeln!(tf, "{}", json!({"ast": p.to_json(), "build": b, "optimized": b.ends_with("+O") || b.starts_with("cl23") || b.starts_with("cl24"),
             "reports_symbols": !syms.is_empty(), "shared_code": shared_code, "entries": entries})).unwrap();
-        writeln!(cf, "{}", json!({"source": p.render(crate::p_compile::sigil_of(b)), "build": b, "symbols": syms})).unwrap();
+        writeln!(cf, "{}", json!({"source": p.render(crate::p_compile::sigil_of(b)), "build": b, "symbols": syms,
+            "zero_leading_literal": crate::ast::features(&p).zero_leading_literal})).unwrap();
         if rep.samples.len() < 3 && entries.len() > 1 {
             rep.sample(json!({"source": p.render(crate::p_compile::sigil_of(b)), "entries": entries}));
         }
